@@ -122,6 +122,33 @@ def concrete(inp):
     return {"ok": not bad, "detail": "; ".join(bad[:3]), "inputs": inp}
 
 
+def concrete_sequence(inp):
+    """both components asked one after the other on one membrane (experiments of both carry the membrane's name): each answer is what a
+    membrane that has not been asked anything gives"""
+    from pyvaporation.mixtures import Mixtures as _M
+    T = inp.get("T")
+    if T is None or not 260 < T < 420:
+        T = 341.0
+    mix = _M.H2O_EtOH
+    bad = []
+    for stated in (False, True):
+        def build_membrane():
+            exps = []
+            for c, P, E in ((mix.first_component, 0.03, 21000.0), (mix.second_component, 0.002, 64000.0)):
+                for j, Te in enumerate((313.15, 333.15, 353.15)):
+                    val = P * math.exp(-E / RG * (1 / Te - 1 / 323.15)) * (1.0 + 0.07 * j * (1 if c is mix.first_component else -1))
+                    exps.append(IdealExperiment(name="membrane", temperature=Te, component=c, permeance=pv.Permeance(val), activation_energy=(E * (1 + 0.1 * j)) if stated else None))
+            return Membrane(name="membrane", ideal_experiments=IdealExperiments(experiments=exps))
+        shared = build_membrane()
+        for Tq in (T, 322.0, 349.5):
+            for c in (mix.first_component, mix.second_component):
+                got = shared.get_permeance(Tq, c).value
+                want = build_membrane().get_permeance(Tq, c).value
+                if not close(got, want, 1e-12, 0):
+                    bad.append("%s energies: permeance of %s at %r K asked on a membrane with a history %r, on a fresh membrane %r" % ("stated" if stated else "regressed", c.name, Tq, float(got), float(want)))
+    return {"ok": not bad, "detail": "; ".join(bad[:2]), "inputs": inp}
+
+
 def _lstsq_stub(job):
     def lstsq(a, y, rcond=None):
         """contract of least squares: the returned s satisfies the normal equations A^T A s = A^T y"""
@@ -257,6 +284,41 @@ def permeance(job, n, stated, units):
                     job.prove(tag + "/measured_value_at_T%d/no_raise" % j, dom0 + leaf.pc, z3.BoolVal(True), R_, inputs, fallback=fb)
 
 
+def sequence(job, stated):
+    """both components asked one after the other on one membrane object (their experiments carry the same name, the library's convention):
+    the second answer is what a membrane that has not been asked anything gives"""
+    n = 2
+    job.bound(experiments_per_component=n, questions_in_sequence=2)
+    job.stub("numpy.linalg.lstsq -> solution of the normal equations")
+    T = real("T")
+    mem, info, dom0 = _membrane(n, stated, Units.kg_m2_h_kPa, stated is None)
+    i1, i2 = info[1], info[2]
+    dom = dom0 + [T.t > 260, T.t < 420]
+    for i_ in (i1, i2):
+        dist = [z3.If(t.t - T.t >= 0, t.t - T.t, T.t - t.t) for t in i_["Ts"]]
+        dom += [a != b for a, b in itertools.combinations(dist, 2)] + [t.t != T.t for t in i_["Ts"]]
+    tag = "C12/sequence/%s" % ("unstated" if stated is None else "stated_each")
+    with Patches() as pt:
+        pt.set(numpy.linalg, "lstsq", _lstsq_stub(job))
+
+        def ask():
+            mem.get_permeance(T, i1["comp"])
+            P2 = mem.get_permeance(T, i2["comp"])
+            fresh = Membrane(name="m", ideal_experiments=IdealExperiments(experiments=list(mem.ideal_experiments.experiments)))
+            return P2, fresh.get_permeance(T, i2["comp"])
+
+        got = 0
+        for leaf in job.explore(ask, dom, timeout_ms=500):
+            if leaf.kind != "returned":
+                continue
+            got += 1
+            P2, P2_fresh = leaf.value
+            job.prove(tag + "/other_component_asked_second_as_on_a_fresh_membrane", dom + leaf.conds(), lift(P2.value) != lift(P2_fresh.value),
+                      "vf.props.C12:concrete_sequence", {"T": T.t}, fallback=[{"T": 341.0}], congruence=["EXP", "LOG"], timeout=30)
+        if not got:
+            job.unreached(tag)
+
+
 def derived(job):
     """selectivity and pure-component flux on top of get_permeance (stub: PERM_i(T) >= 0 in kg units, as shown above)"""
     job.stub("PSAT_i(T) > 0", "get_permeance exercised for real (n = 1, stated energy)")
@@ -311,4 +373,5 @@ def jobs(tier):
         for stated in (None, True):
             js.append(("perm_n%d_%s_mixed_units" % (n, stated), "permeance", {"n": n, "stated": stated, "units": "mixed"}))
     js.append(("derived", "derived", {}))
+    js += [("sequence_unstated", "sequence", {"stated": None}), ("sequence_stated_each", "sequence", {"stated": "own"})]
     return js
